@@ -382,6 +382,29 @@ def check_grid_case(ctx: Ctx, c: Dict[str, Any]) -> None:
                 ctx.violation(dict(op="Grid.world_to_cube", what="center", **sigv), f"[{vname}, size {nv}] the center does not map to the middle of the cube", c)
         except Exception as ex:
             ctx.violation(dict(op="Grid.origin", exc=type(ex).__name__, variant=vname, **sig0), f"[{vname}] anchor checks raised {type(ex).__name__}: {str(ex)[:100]}", c)
+    # transform() / inverse_transform() without arguments: the grid's OWN cube (per its align_corners flag) <-> world, inverse to each other
+    try:
+        from deepali.core.linalg import as_homogeneous_matrix, hmm
+
+        own = "cube_corners" if g.align_corners() else "cube"
+        if not (g.align_corners() and min(n) < 2):
+            for vflag in (False, True):
+                Tf = g.transform(vectors=vflag).double()
+                Ti = g.inverse_transform(vectors=vflag).double()
+                Ef, Ei = g.transform(own, "world", vectors=vflag).double(), g.transform("world", own, vectors=vflag).double()
+                if max_err(Tf, Ef) > 1e-5 * max(1.0, float(Ef.abs().max())) or max_err(Ti, Ei) > 1e-5 * max(1.0, float(Ei.abs().max())):
+                    ctx.violation(dict(op="Grid.inverse_transform", what="own axes", vectors=vflag, **sig0),
+                                  f"transform()/inverse_transform(vectors={vflag}) are not the maps between the grid's own {own} axes and the world", c)
+                prod = (Ti @ Tf) if vflag else as_homogeneous_matrix(hmm(Ti, Tf)).double()
+                eye_ = torch.eye(D, D if vflag else D + 1, dtype=torch.float64)
+                if max_err(prod.reshape(eye_.shape), eye_) > 1e-5:
+                    ctx.violation(dict(op="Grid.inverse_transform", what="inverse", vectors=vflag, **sig0), f"inverse_transform(vectors={vflag}) o transform(vectors={vflag}) is not the identity: {prod.tolist()}", c)
+                cT = g.cube().transform(vectors=vflag).double()
+                cI = g.cube().inverse_transform(vectors=vflag).double()
+                if max_err(cT, Ef) > 1e-5 * max(1.0, float(Ef.abs().max())) or max_err(cI, Ei) > 1e-5 * max(1.0, float(Ei.abs().max())):
+                    ctx.violation(dict(op="Cube.inverse_transform", what="own axes", vectors=vflag, **sig0), "the cube's transform()/inverse_transform() differ from the grid's own-cube maps", c)
+    except Exception as ex:
+        ctx.violation(dict(op="Grid.inverse_transform", exc=type(ex).__name__, **sig0), f"transform()/inverse_transform() raised {type(ex).__name__}: {str(ex)[:100]}", c)
     # unnormalised coordinates: integer indices, and indices counted from the middle sample (center=True)
     try:
         for i_ in range(D):
